@@ -415,6 +415,10 @@ func (w *world) find(prefix, from []byte, max int) {
 			w.o.Count("find:with-from")
 		}
 	}
+	if w.lazy { // records are missing: only the lazy model is compared
+		w.o.Count("lazy:find:" + strings.SplitN(obs, " ", 2)[0])
+		good = true
+	}
 	if !good {
 		w.o.Fail("find-mismatch", w.k, "Find(%x, %s, %d) = %s, want keys %x", prefix, fs, max, obs, want)
 	}
@@ -690,6 +694,10 @@ func main() {
 		case k%8 == 7:
 			genDecoderCase(w)
 			o.Count("case:decoder")
+		case k%8 == 5:
+			w.setMode([]mpt.TrieMode{mpt.ModeAll, mpt.ModeLatest, mpt.ModeGC}[(k/8)%3])
+			genAliasCase(w)
+			o.Count("case:alias")
 		case k%8 == 3:
 			w.setMode([]mpt.TrieMode{mpt.ModeAll, mpt.ModeLatest, mpt.ModeGC}[(k/8)%3])
 			genLazyCase(w)
